@@ -518,6 +518,11 @@ static void entropy_gen(Plan *p, uint64_t base_seed, uint64_t variant, int tier)
 	if (N == 0) { node = 1 - node; N = g_etwin.ndraws[node]; }
 	if (N == 0) return;
 	uint32_t m = rng_below(&v, 100);
+	if (!p->op && variant >= 36) {
+		p->defect = EM_PAIR;
+		p->efail_node = -1;
+		return;
+	}
 	if (p->op && variant >= 36) {
 		p->defect = variant >= 38 ? EM_HISTORY : EM_PAIR;
 		p->op_count = g_ops[p->op].slow ? (tier ? 24 : 6) : (tier ? 60 : 24);
@@ -650,6 +655,98 @@ static void entropy_run(const Plan *p, RunResult *r)
 
 	/* ---- handshake mode ---- */
 	static HonestOut o;
+	if (p->defect == EM_PAIR) {
+		/* stream pairs on whole connections: (A,A) identical wire transcript; (A,B) every ephemeral public
+		 * value differs; within one connection no record IV repeats */
+		static Plan q;
+		static uint8_t wire[2][2][200000]; static size_t wlen[2][2];      /* [run][dir] */
+		static RecInfo recs[2][2][MAX_REC]; static int nrecs[2][2];
+		uint64_t h[3] = { 0, 0, 0 };
+		r->nontrivial = 1;
+		r->nontrivial_id = r->fault_id = hash_bytes(0x91a, (int64_t[]){ p->proto, p->mutual, p->ent_c, p->ent_s }, 32);
+		for (int run = 0; run < 3; run++) {
+			q = *p;
+			q.efail_node = -1; q.eburst_at = -1;
+			if (run == 2) { q.ent_c = p->ent_c ^ 0x5a5a5a5a; q.ent_s = p->ent_s ^ 0x3c3c3c3c; }
+			conn_run(&q, creds_get((int)q.depth, q.proto == P_TLCP), &o, NULL, NULL);
+			if (o.hs_ret[0] != 1 || o.hs_ret[1] != 1) { r->twin_failed = 1; return; }
+			for (int d = 0; d < 2; d++) {
+				Pipe *pp = &g_conns[0].pipe[d];
+				h[run] = hash_bytes(h[run], pp->sent, pp->sent_len);
+				if (run != 1) {
+					int slot = run == 0 ? 0 : 1;
+					wlen[slot][d] = pp->sent_len < sizeof(wire[0][0]) ? pp->sent_len : sizeof(wire[0][0]);
+					memcpy(wire[slot][d], pp->sent, wlen[slot][d]);
+					nrecs[slot][d] = o.nrecs[d];
+					memcpy(recs[slot][d], o.recs[d], sizeof(RecInfo) * (size_t)o.nrecs[d]);
+				}
+			}
+		}
+		if (h[0] != h[1]) {
+			rr_violation(r, "x", "proto=%s: two connections on the same entropy streams, clocks, schedule and network put different bytes on the wire", g_proto_names[p->proto]);
+			snprintf(r->vclass, sizeof(r->vclass), "nondeterministic_op:handshake:%s", g_proto_names[p->proto]);
+			return;
+		}
+		/* collect ephemeral values of run A (slot 0) and run B (slot 1): Hello randoms, 65-byte EC points, record IVs */
+		for (int d = 0; d < 2; d++) {
+			/* Hello random: first record of the direction, bytes 11..42 (TLS 1.3: all 32; older: skip the 4 time bytes) */
+			size_t ro = p->proto == P_TLS13 ? 11 : 15, rl = p->proto == P_TLS13 ? 32 : 28;
+			if (wlen[0][d] > 43 && wlen[1][d] > 43 && !memcmp(wire[0][d] + ro, wire[1][d] + ro, rl)) {
+				rr_violation(r, "x", "proto=%s: %s random is the same under two different entropy streams", g_proto_names[p->proto], d ? "ServerHello" : "ClientHello");
+				snprintf(r->vclass, sizeof(r->vclass), "entropy_indep:hello_random:%s:%s", g_proto_names[p->proto], d ? "server" : "client");
+				return;
+			}
+			/* EC points in plaintext handshake records: 0x41 0x04 || 64 bytes */
+			for (int i = 0; i < nrecs[0][d] && i < nrecs[1][d]; i++) {
+				RecInfo *ra = &recs[0][d][i], *rb = &recs[1][d][i];
+				if (ra->type != TLS_record_handshake || rb->type != TLS_record_handshake) continue;
+				const uint8_t *a = wire[0][d] + ra->off, *b = wire[1][d] + rb->off;
+				if (a[5] == TLS_handshake_certificate) continue;      /* long-term keys are the same in both runs by construction */
+				for (size_t x = 5; x + 66 <= ra->len && ra->off + ra->len <= wlen[0][d]; x++) {
+					if (a[x] != 65 || a[x + 1] != 4) continue;
+					for (size_t y = 5; y + 66 <= rb->len && rb->off + rb->len <= wlen[1][d]; y++)
+						if (b[y] == 65 && b[y + 1] == 4 && !memcmp(a + x + 2, b + y + 2, 64)) {
+							rr_violation(r, "x", "proto=%s: an ephemeral EC point in %s handshake record %d is the same under two different entropy streams", g_proto_names[p->proto], d ? "server" : "client", i);
+							snprintf(r->vclass, sizeof(r->vclass), "entropy_indep:ec_point:%s:%s", g_proto_names[p->proto], d ? "server" : "client");
+							return;
+						}
+				}
+			}
+			/* explicit CBC IVs of protected records (TLCP / TLS 1.2): no repeat within a connection, none shared between A and B */
+			if (p->proto != P_TLS13) {
+				int seen_ccs = 0;
+				for (int i = 0; i < nrecs[0][d]; i++) {
+					RecInfo *ra = &recs[0][d][i];
+					if (ra->type == TLS_record_change_cipher_spec) { seen_ccs = 1; continue; }
+					if (!seen_ccs || ra->len < 5 + 16 || ra->off + ra->len > wlen[0][d]) continue;
+					const uint8_t *iva = wire[0][d] + ra->off + 5;
+					int ccs2 = 0;
+					for (int j = 0; j < i; j++) {
+						RecInfo *rj = &recs[0][d][j];
+						if (rj->type == TLS_record_change_cipher_spec) { ccs2 = 1; continue; }
+						if (!ccs2 || rj->len < 21 || rj->off + rj->len > wlen[0][d]) continue;
+						if (!memcmp(iva, wire[0][d] + rj->off + 5, 16)) {
+							rr_violation(r, "x", "proto=%s: records %d and %d of one connection (%s) carry the same CBC IV", g_proto_names[p->proto], j, i, d ? "server" : "client");
+							snprintf(r->vclass, sizeof(r->vclass), "entropy_reuse:record_iv:%s", g_proto_names[p->proto]);
+							return;
+						}
+					}
+					ccs2 = 0;
+					for (int j = 0; j < nrecs[1][d]; j++) {
+						RecInfo *rj = &recs[1][d][j];
+						if (rj->type == TLS_record_change_cipher_spec) { ccs2 = 1; continue; }
+						if (!ccs2 || rj->len < 21 || rj->off + rj->len > wlen[1][d]) continue;
+						if (!memcmp(iva, wire[1][d] + rj->off + 5, 16)) {
+							rr_violation(r, "x", "proto=%s: a record IV is the same under two different entropy streams", g_proto_names[p->proto]);
+							snprintf(r->vclass, sizeof(r->vclass), "entropy_indep:record_iv:%s", g_proto_names[p->proto]);
+							return;
+						}
+					}
+				}
+			}
+		}
+		return;
+	}
 	conn_run(p, creds_get((int)p->depth, p->proto == P_TLCP), &o, NULL, NULL);
 	int node = (int)p->efail_node;
 	if (node < 0 || node > 1) { r->twin_failed = 1; return; }
